@@ -1511,6 +1511,7 @@ func c01r13(rc *core.RC) {
 	info := p.Info(fd)
 	found := false
 	var at token.Pos
+	var guard ast.Expr
 	ast.Inspect(fd.Body, func(m ast.Node) bool {
 		ifs, ok := m.(*ast.IfStmt)
 		if !ok || found {
@@ -1547,11 +1548,54 @@ func c01r13(rc *core.RC) {
 		if stored != nil && cleared["IsOmitEmpty"] == stored && cleared["IsString"] == stored {
 			found = true
 			at = ifs.Pos()
+			guard = ifs.Cond
 		}
 		return true
 	})
 	if found {
 		rc.OK(key, at, "for a flattened embedded struct the tag kept in the field code has omitempty and string cleared")
+		// the clearing stands for every embedded field: each conjunct of its guard is the anonymity itself or speaks
+		// only of the two options (a pointer to a struct is flattened like the struct, and the omitempty variants of
+		// the field opcodes write its name in front of its members)
+		key2 := "encoder.(*Compiler).structFieldCode/every-embedded-field-loses-its-options"
+		var extra []string
+		for _, c := range conjuncts(guard) {
+			anon, onlyOptions, other := false, true, false
+			ast.Inspect(c, func(k ast.Node) bool {
+				switch x := k.(type) {
+				case *ast.SelectorExpr:
+					switch x.Sel.Name {
+					case "isAnonymous":
+						anon = true
+					case "IsOmitEmpty", "IsString":
+					default:
+						onlyOptions, other = false, true
+					}
+					return false
+				case *ast.CallExpr:
+					if core.CalleeName(info, x) == "encoder.isEmbeddedStructTag" {
+						anon = true
+						return false
+					}
+					onlyOptions, other = false, true
+				case *ast.BasicLit:
+					onlyOptions = false
+				}
+				return true
+			})
+			if anon && !other {
+				continue
+			}
+			if onlyOptions {
+				continue
+			}
+			extra = append(extra, core.Src(p.Fset, c))
+		}
+		if len(extra) == 0 {
+			rc.OK(key2, at, "the guard %s leaves no embedded field out", core.Src(p.Fset, guard))
+		} else {
+			rc.Bad(key2, at, "the options of an embedding are cleared only where also %s holds: the other embedded fields reach the omitempty / string variants of the field opcodes, which write the embedding's name and then the members of the embedded struct (struct{ *In `json:\",omitempty\"` } with a non-nil pointer gives {\"In\":\"X\":2})", strings.Join(extra, " && "))
+		}
 		return
 	}
 	// the other way to get there: the opcode choosers look at anonymity themselves
@@ -2420,5 +2464,65 @@ func c15r24(rc *core.RC) {
 	}
 	if n < 1 {
 		rc.Unknown("decoder/fold-lookups", token.NoPos, "no function that consults foldFieldMap found")
+	}
+}
+
+// ---- C15.R25 whether a field is exported is what the type system says ----
+
+// encoding/json ignores a field that is not exported: reflect reports that in StructField.PkgPath (non-empty) or
+// IsExported. The case of the first letter is not the same thing: `_pad`, `_` and names in scripts without case are
+// not exported and have no lower-case first letter. Obligation: runtime.IsIgnoredStructField (with the helpers of
+// its package it calls) tests field.PkgPath or field.IsExported(), and no unicode.IsLower / IsUpper takes part in it.
+func c15r25(rc *core.RC) {
+	p := rc.P
+	fd := p.Func("runtime", "IsIgnoredStructField")
+	key := "runtime.IsIgnoredStructField/exported-as-reflect-says"
+	if fd == nil || fd.Body == nil {
+		rc.Unknown(key, token.NoPos, "function not found")
+		return
+	}
+	rc.Touch(p.FuncName(fd))
+	pk := p.Pkg("runtime")
+	info := pk.TypesInfo
+	typeSystem, byCase := false, ""
+	seen := map[*ast.FuncDecl]bool{}
+	var visit func(g *ast.FuncDecl, depth int)
+	visit = func(g *ast.FuncDecl, depth int) {
+		if g == nil || g.Body == nil || seen[g] || depth > 2 {
+			return
+		}
+		seen[g] = true
+		ast.Inspect(g.Body, func(m ast.Node) bool {
+			switch x := m.(type) {
+			case *ast.SelectorExpr:
+				if f := core.FieldOf(info, x); f != nil && f.Name() == "PkgPath" && f.Pkg() != nil && f.Pkg().Path() == "reflect" {
+					typeSystem = true
+				}
+			case *ast.CallExpr:
+				cn := core.CalleeName(info, x)
+				switch {
+				case cn == "reflect.StructField.IsExported":
+					typeSystem = true
+				case cn == "unicode.IsLower" || cn == "unicode.IsUpper" || cn == "unicode.ToLower" || cn == "unicode.ToUpper":
+					if byCase == "" {
+						byCase = cn + " in " + p.FuncName(g)
+					}
+				default:
+					if f := core.Callee(info, x); f != nil && f.Pkg() == pk.Types {
+						visit(p.DeclOf(f), depth+1)
+					}
+				}
+			}
+			return true
+		})
+	}
+	visit(fd, 0)
+	switch {
+	case byCase != "":
+		rc.Bad(key, fd.Pos(), "whether a field is ignored depends on the case of a letter of its name (%s): a field named _pad, _ or with a first letter that has no case is not exported, and encoding/json ignores it; here it is written and set", byCase)
+	case !typeSystem:
+		rc.Bad(key, fd.Pos(), "IsIgnoredStructField tests neither field.PkgPath nor field.IsExported(): fields that are not exported are not told from exported ones")
+	default:
+		rc.OK(key, fd.Pos(), "a field is taken for unexported when reflect says so (PkgPath / IsExported); no test of a letter's case takes part")
 	}
 }
